@@ -448,6 +448,11 @@ def run(ck):
     check_b(ck, repo, r[0] if r else None)
     check_c(ck, repo)
     check_strided(ck, repo)
+    from .sem import share_clauses
+
+    share_clauses(ck, "c02", {
+        "C02.c": ("C20.d", "the table builders and their callers never write into the caller's X, y or weights: a second table built from the same arrays (the compact one after the padded one) carries the same values"),
+    }, keep=lambda o: o.file.startswith("mlinsights/timeseries/"))
     ck.extra["symbols"] = "n = y.shape[0] = X.shape[0]; past, d1, d2 = model.past/delay1/delay2; i = loop variable; facts proved with d1 symbolic where possible, d1 = 1 for slice lengths"
     ck.require_count("C20.a", 7, "nrow, lags x4, targets x6, ordering, exog, weights")
     ck.require_count("C20.b", 6, "nrow/first, 3 roles x (slice, rows, columns), weights, allocations")
